@@ -289,6 +289,38 @@ def run(ctx):
         if got != want or bool(y == x) != want:
             ctx.oracle_fail("user_equality", case, f"== is {got} / {bool(y == x)}, the operations are {'equal' if want else 'different'}", eqm)
     ctx.suite("user_equality", cases=len(eq_cases))
+    # --- two programs of one process define a gate of the same name differently: each builder must build ITS definition
+    from opensquirrel.ir import BlochSphereRotation, QubitLike, named_gate
+
+    n_two = 0
+    for k in range(ctx.pick(6, 40)):
+        axes = [(1, 0, 0), (0, 1, 0), (0, 0, 1)]
+        ax_a, ax_b = rng.sample(axes, 2)
+
+        def mk(ax):
+            @named_gate
+            def tilt(q: QubitLike, theta: Float) -> BlochSphereRotation:
+                return BlochSphereRotation(qubit=q, axis=ax, angle=theta.value, phase=0)
+            return tilt
+        fa, fb = mk(ax_a), mk(ax_b)
+        t = rng.choice([0.7, -1.1, 2.0])
+        ba = CircuitBuilder(2, gate_set=[*gate_set, fa])
+        ba.tilt(0, Float(t))
+        bb = CircuitBuilder(2, gate_set=[*gate_set, fb])
+        bb.tilt(1, Float(t))
+        case = {"kind": "same_name_two_gate_sets", "axis_a": ax_a, "axis_b": ax_b, "theta": t}
+        ctx.seen(case)
+        n_two += 1
+        ga, gb = ba.to_circuit().ir.statements[0], bb.to_circuit().ir.statements[0]
+        ok = np.allclose(ga.axis.value, ax_a) and np.allclose(gb.axis.value, ax_b) and gb.generator is fb and ga.generator is fa
+        if not ok:
+            ctx.oracle_fail("user", case, "a builder built another gate set's definition of a gate with the same name", None)
+        try:
+            CircuitBuilder(2).tilt(0, Float(t))
+            ctx.oracle_fail("user", case, "a builder accepted a user gate that is not in its gate set", None)
+        except Exception:  # noqa: BLE001
+            pass
+    ctx.suite("same_name_two_gate_sets", cases=n_two)
     ctx.sample({"user_gates": sorted(USER_SIG), "example": rand_user_spec(rng, 3)})
 
 
